@@ -106,6 +106,8 @@ InitH(sc) ==
    fault |-> None,                          \* <<sim, kind>> after an injected simulator failure
    stops |-> [s \in Sids(sc) |-> 0],        \* stop/finalize calls received
    slow  |-> 0, warned |-> 0, expwarn |-> 0, \* real-time: too-slow reports, ignored-event warnings seen / expected
+   pg    |-> [lo |-> 0, hi |-> 0, last |-> 0], \* information requests: bounds of World.sim_progress (sum of the simulators' progress times) as of
+                                            \* the last completed step, and the last value a simulator was told
    dead  |-> FALSE]                         \* bookkeeping impossible after a C02 failure
 
 Viol(c, d) == <<[c |-> c, d |-> d]>>
@@ -478,6 +480,70 @@ ProtoStep(sc, h, ev) ==
                                   v |-> Cond(ph[s] \in {"data", "data_idle", "stopped"}, "PR_get_data_reply_without_request", <<s, ph[s]>>)]
             [] OTHER          -> [ph |-> to("stopped"), v |-> Cond(ph[s] # "stopped", "PR_stopped_twice", <<s>>)]
 
+----------------------------------------------------------------------------
+(* Information requests (IR_* clauses): get_progress and get_related_entities, the two requests of the simulator API  *)
+(* next to set_data / get_data / set_event.  Not a listed property: reported as drift, like PR_* and EG_*.            *)
+(*                                                                                                                   *)
+(* get_progress answers World.sim_progress, which mosaik recomputes whenever a step has been completed (outputs       *)
+(* retrieved): the mean of the simulators' progress times as a percentage of `until`.  The reference does not model   *)
+(* progress; it BOUNDS it from the observable history.  For every simulator x, as of the last completed step:         *)
+(*   progress(x) <= Hi(x) = min(until, times of x's outstanding demands, time of x's step in flight)                  *)
+(*       (a simulator's progress never passes a step it still has to perform - otherwise the step would lie in its    *)
+(*        past, C01/C05)                                                                                              *)
+(*   progress(x) >= Lo(x) = max(time of the last step x began, min of Hi over x and every simulator with a path of    *)
+(*        trigger connections to x)   (nothing but an outstanding step of x or of a triggering ancestor can hold x    *)
+(*        back - otherwise x waits for something that cannot come, C05/C07)                                           *)
+(* In real-time mode the wall clock caps progress as well, so only the first lower bound is used there.               *)
+InfoOn(sc) == IF "info" \in DOMAIN sc THEN sc.info ELSE FALSE
+TrigPre(sc, s) == {Conn(sc, i).src : i \in {j \in CIdx(sc) : Conn(sc, j).dst = s /\ Conn(sc, j).data /\ Conn(sc, j).trig}}
+RECURSIVE AncClose(_, _, _)
+AncClose(sc, S, k) == IF k = 0 THEN S ELSE AncClose(sc, S \cup UNION {TrigPre(sc, x) : x \in S}, k - 1)
+AncTrig(sc, s) == AncClose(sc, {s}, Len(sc.sims))
+IMinS(S) == CHOOSE x \in S : \A y \in S : x <= y
+PgHi(sc, h, x) == IMinS({sc.until} \cup {d[1] : d \in h.dem[x]} \cup (IF h.infl[x] = None THEN {} ELSE {h.infl[x][1]}))
+PgLo(sc, h, x) == LET began == IF h.lastd[x] = None THEN 0 ELSE h.lastd[x][1]
+                      free  == IMinS({PgHi(sc, h, a) : a \in AncTrig(sc, x)})
+                  IN IF RT(sc).on THEN began ELSE IF began > free THEN began ELSE free
+RECURSIVE PgSum(_, _, _, _)
+PgSum(sc, h, Op(_, _, _), n) == IF n = 0 THEN 0 ELSE Op(sc, h, sc.sims[n].sid) + PgSum(sc, h, Op, n - 1)
+\* a step has been completed: its outputs were retrieved, or there were none to retrieve
+Completes(h, ev) == (ev.k = "DE" /\ h.infl[ev.s] # None) \/ (ev.k = "SE" /\ ev.nodata)
+InfoSnap(sc, h0, h, ev) ==
+  IF InfoOn(sc) /\ ~h.dead /\ Completes(h0, ev)
+    THEN [h EXCEPT !.pg = [lo |-> PgSum(sc, h, PgLo, Len(sc.sims)), hi |-> PgSum(sc, h, PgHi, Len(sc.sims)), last |-> @.last]]
+    ELSE h
+
+\* the entity graph: one node per created entity (with its model name), one undirected edge per pair of entities that a
+\* connect() call joined (data connections and asynchronous-request connections alike)
+Pair(a, b) == {a, b}
+FullId(s, e) == <<s, e>>
+ExpEdges(sc) == {Pair(FullId(Conn(sc, i).src, Conn(sc, i).se), FullId(Conn(sc, i).dst, Conn(sc, i).de)) : i \in CIdx(sc)}
+Neigh(sc, n) == {m \in UNION ExpEdges(sc) : Pair(n, m) \in ExpEdges(sc) /\ (m # n \/ {n} \in ExpEdges(sc))}
+RefInfo(sc, h, ev) ==
+  IF ev.f = "get_progress" THEN
+     \* ev.arg: the answer, converted back to the sum of the progress times (-1: not a whole number, -2: the request failed)
+     LET judged == h.mal = None /\ h.fault = None IN
+     [h |-> [h EXCEPT !.pg.last = IF ev.arg >= 0 THEN ev.arg ELSE @],
+      v |-> Cond(ev.arg # -2, "IR_get_progress_failed", <<ev.s, ev.res>>)
+            \o Cond(~judged \/ ev.arg < 0 \/ (h.pg.lo <= ev.arg /\ ev.arg <= h.pg.hi), "IR_progress_outside_what_the_steps_performed_allow", <<ev.s, ev.arg, h.pg, h.dem, h.infl, h.lastd>>)
+            \o Cond(~judged \/ ev.arg < 0 \/ ev.arg >= h.pg.last, "IR_progress_went_backwards", <<ev.s, ev.arg, h.pg.last>>)
+            \o Cond(ev.arg # -1, "IR_progress_is_not_the_mean_of_whole_progress_times", <<ev.s>>)]
+  ELSE
+     \* get_related_entities.  ev.created: every entity the simulators returned from create() as <<sid, eid, type>>;
+     \* ev.shape in {"all", "one", "many"}; ev.q: the entities asked about; ev.nodes / ev.edges (shape all) or ev.rel
+     \* (<<asked entity, related entity, its type>>) as mosaik answered
+     LET typeOf(n) == (CHOOSE c \in ev.created : <<c[1], c[2]>> = n)[3]
+         known(n) == \E c \in ev.created : <<c[1], c[2]>> = n
+         expNodes == {<<c[1], c[2], c[3]>> : c \in ev.created}
+         expRel == UNION {{<<q, m, typeOf(m)>> : m \in {m2 \in Neigh(sc, q) : known(m2)}} : q \in ev.q}
+     IN [h |-> h,
+         v |-> Cond(ev.res = "ok", "IR_get_related_entities_failed", <<ev.s, ev.shape, ev.res>>)
+               \o (IF ev.res # "ok" THEN NoV
+                   ELSE IF ev.shape = "all"
+                     THEN Cond(ev.nodes = expNodes, "IR_entity_graph_nodes_are_not_the_created_entities", <<ev.s, ev.nodes, expNodes>>)
+                          \o Cond({Pair(e[1], e[2]) : e \in ev.edges} = ExpEdges(sc), "IR_entity_graph_edges_are_not_the_connected_pairs", <<ev.s, ev.edges, ExpEdges(sc)>>)
+                     ELSE Cond(ev.rel = expRel, "IR_related_entities_are_not_the_connected_ones", <<ev.s, ev.q, ev.rel, expRel>>))]
+
 RefStep0(sc, h, ev) ==
   IF h.dead THEN
      \* the bookkeeping stopped after a step nobody demanded; how the run ENDS is still judged (C05 is about the outcome)
@@ -490,7 +556,7 @@ RefStep0(sc, h, ev) ==
   ELSE CASE ev.k = "SB"  -> RefSB(sc, h, ev)
          [] ev.k = "SE"  -> RefSE(sc, h, ev)
          [] ev.k = "DE"  -> RefDE(sc, h, ev)
-         [] ev.k = "CB"  -> RefCB(sc, h, ev)
+         [] ev.k = "CB"  -> IF ev.f \in {"get_progress", "get_related_entities"} THEN RefInfo(sc, h, ev) ELSE RefCB(sc, h, ev)
          [] ev.k = "END" -> RefEND(sc, h, ev)
          [] ev.k = "LOG" -> RefLOG(sc, h, ev)
          [] ev.k = "EG"  -> RefEG(sc, h, ev)
@@ -499,7 +565,7 @@ RefStep0(sc, h, ev) ==
          [] OTHER        -> [h |-> h, v |-> NoV]
 
 RefStep(sc, h, ev) ==
-  LET r == RefStep0(sc, h, ev)  p == ProtoStep(sc, h, ev) IN [h |-> [r.h EXCEPT !.ph = p.ph], v |-> r.v \o p.v]
+  LET r == RefStep0(sc, h, ev)  p == ProtoStep(sc, h, ev) IN [h |-> InfoSnap(sc, h, [r.h EXCEPT !.ph = p.ph], ev), v |-> r.v \o p.v]
 
 Clauses(v) == {v[i].c : i \in 1..Len(v)}
 =============================================================================
